@@ -1,28 +1,185 @@
 /-
   EasyMl.Props.C13 — property theorems for C13 (tensor transformations equal their lazy views;
-  equality and similarity laws).  Helper lemmas are in EasyMl/Lemmas/Transform*.lean.
+  equality and similarity laws).
+
+  Only property statements live here; helper lemmas are in EasyMl/Lemmas/{ShapeIter,Transform,
+  Swap,Equality}.lean.  Every theorem is about the very definitions the `emlmodel` driver executes
+  against the implementation (EasyMl/Model/Transform.lean) and the specification
+  (EasyMl/Spec/Transform.lean).
+
+  Reading guide.  A *source* (`TView`: shape + `get_reference`) stands for any `TensorRef`; the
+  hypothesis `v.lazy.Valid` is the `TensorRef` contract (unique names, lengths ≥ 1, an element at
+  exactly the in-bounds tuples).  `view_valid` shows every tensor built by `Tensor::from` /
+  `try_from` meets it, and the `*_valid` theorems show the lazy views (access, transpose, rename)
+  preserve it, so the hypotheses are never vacuous and cover views of views.  `Tensor.ofVal x` is
+  the tensor storing value `x` (row-major elements, row-major strides).
 -/
-import EasyMl.Model.Transform
-import EasyMl.Spec.Transform
+import EasyMl.Lemmas.Transform
 
 namespace EasyMl.C13
 open EasyMl EasyMl.Spec
 
-variable {ν : Type} [DecidableEq ν] {α : Type}
+set_option linter.unusedSectionVars false
 
-/-- `reshape_owned` keeps the flat data (placeholder until the lemma files land). -/
-theorem reshapeOwned_preserves_flat (t : Tensor ν α) (shape : Shape ν) (r : Tensor ν α)
-    (h : t.reshapeOwned shape = .ok r) : r.data = t.data ∧ r.shape = shape := by
-  unfold Tensor.reshapeOwned Tensor.fromOrPanic at h
-  split at h
-  · rename_i t' ht
-    unfold Tensor.tryFrom at ht
-    split at ht
-    · simp at ht
-    · simp only [Option.some.injEq] at ht
-      simp only [Outcome.ok.injEq] at h
-      subst h ht
-      exact ⟨rfl, rfl⟩
-  · simp at h
+variable {ν : Type} [DecidableEq ν] {α β : Type}
+
+/-! ### iteration -/
+
+/-- The `ShapeIterator` odometer (increment the last index, carry right-to-left, finish when the
+    first index runs out) yields exactly the index tuples of its shape, each once, in row-major
+    order — every dimensionality, every shape; shapes with a zero length yield nothing. -/
+theorem shapeIterator_enumerates (lens : List Nat) : shapeIndexes lens = allIndexes lens :=
+  shapeIndexes_eq_allIndexes lens
+
+/-- Iterating any source (`TensorIterator`, `TensorReferenceIterator`) lists the elements of its
+    lazy view in row-major order of the view's own shape. -/
+theorem iter_eq_materialise (v : TView ν α) : v.iter = (materialise v.lazy).elems :=
+  v.iter_eq
+
+/-- Non-vacuity: 2×3 and a shape with a zero length. -/
+example : shapeIndexes [2, 3] = [[0, 0], [0, 1], [0, 2], [1, 0], [1, 1], [1, 2]] := by decide
+example : shapeIndexes [2, 0, 3] = [] := by decide
+example : shapeIndexes [] = [[]] := by decide
+
+/-! ### tensors and lazy views meet the `TensorRef` contract -/
+
+/-- A tensor accepted by the constructors is a valid source, and it is the view "row-major
+    addressing of `data`" whose value is `(shape, data)`. -/
+theorem view_valid (shape : Shape ν) (data : List α) (t : Tensor ν α)
+    (ht : Tensor.tryFrom shape data = some t) :
+    t.view.lazy.Valid ∧ t.view.lazy.Equiv (ofData shape data) ∧
+    materialise t.view.lazy = { shape := shape, elems := data } :=
+  ⟨EasyMl.view_valid shape data t ht, view_equiv_ofData shape data t ht,
+   materialise_view shape data t ht⟩
+
+/-- Storing the value of a valid view gives a tensor the constructors accept, and reading it
+    gives back the view's elements: materialisation loses nothing. -/
+theorem materialise_roundtrip (v : LazyView ν α) (hv : v.Valid) :
+    Tensor.tryFrom v.shape (materialise v).elems = some (Tensor.ofVal (materialise v)) ∧
+    (Tensor.ofVal (materialise v)).view.lazy.Equiv v :=
+  ⟨hv.tryFrom, rfl, fun idx hlen => hv.ofVal_get idx hlen⟩
+
+theorem access_view_valid (v : LazyView ν α) (hv : v.Valid) (names : List ν)
+    (hp : IsOrdering v.shape names) : (reordered v names).Valid := reordered_valid hv names hp
+
+theorem transpose_view_valid (v : LazyView ν α) (hv : v.Valid) (names : List ν)
+    (hp : IsOrdering v.shape names) : (transposed v names).Valid := transposed_valid hv names hp
+
+theorem rename_view_valid (v : LazyView ν α) (hv : v.Valid) (names : List ν) (hnd : names.Nodup)
+    (hl : names.length = v.shape.length) : (renamed v names).Valid := renamed_valid hv names hnd hl
+
+/-- Non-vacuity: a concrete tensor is a valid view. -/
+example : ∃ t, Tensor.tryFrom [("a", 2), ("b", 3)] (List.range 6) = some t ∧ t.view.lazy.Valid :=
+  ⟨_, rfl, (view_valid [("a", 2), ("b", 3)] (List.range 6) _ rfl).1⟩
+
+/-! ### the lazy views of the code are the specification's views -/
+
+/-- `TensorAccess::try_from(source, names)` succeeds exactly on orderings of the source's names
+    and is then the by-name reordered view (C01's semantics): its shape is the source's shape
+    permuted, its element at `idx` the source's element whose coordinates match by name. -/
+theorem access_eq_reordered [Inhabited ν] (v : TView ν α) (hv : v.lazy.Valid) (names : List ν) :
+    (IsOrdering v.shape names → ∃ a, v.access names = some a ∧ a.lazy = reordered v.lazy names) ∧
+    (¬ IsOrdering v.shape names → v.access names = none) :=
+  ⟨fun hp => v.access_of_ordering names hv.shape.1 hp, fun hp => v.access_none names hv.shape.1 hp⟩
+
+/-- `TensorTranspose::try_from`: the indexing of the access, the names staying in place. -/
+theorem transposeView_eq_transposed [Inhabited ν] (v : TView ν α) (hv : v.lazy.Valid)
+    (names : List ν) :
+    (IsOrdering v.shape names →
+      ∃ a, v.transposeView names = some a ∧ a.lazy = transposed v.lazy names) ∧
+    (¬ IsOrdering v.shape names → v.transposeView names = none) := by
+  constructor
+  · intro hp
+    obtain ⟨a, ha, hl⟩ := v.access_of_ordering names hv.shape.1 hp
+    refine ⟨{ shape := setNames a.shape (v.shape.map (·.1)), get := a.get },
+      by simp only [TView.transposeView, ha], ?_⟩
+    have h1 : a.shape = shapeFor v.shape names := congrArg LazyView.shape hl
+    have h2 : a.get = (reordered v.lazy names).get := congrArg LazyView.get hl
+    simp only [TView.lazy, transposed, setNames_eq_withNames, h1, h2]
+  · intro hp
+    simp only [TView.transposeView, v.access_none names hv.shape.1 hp]
+
+/-- `TensorRename::from` panics exactly on repeated names, otherwise it is the renamed view. -/
+theorem renameView_eq_renamed (v : TView ν α) (names : List ν) :
+    v.renameView names =
+      if names.Nodup then .ok { shape := (renamed v.lazy names).shape, get := v.get }
+      else .panic .explicit := by
+  unfold TView.renameView
+  by_cases h : names.Nodup
+  · have : hasDuplicates names = false := by
+      cases hd : hasDuplicates names with
+      | false => rfl
+      | true => exact absurd h ((hasDuplicates_iff names).1 hd)
+    simp [this, h, renamed, setNames_eq_withNames]
+  · simp [(hasDuplicates_iff names).2 h, h]
+
+/-! ### allocating transformations = value of the lazy view -/
+
+/-- **reorder.**  For every valid source (a tensor, or a view of any kind) and every name list:
+    `reorder` panics unless the list is an ordering of the source's names, and otherwise returns
+    exactly the tensor storing the value of the reordered lazy view (`TensorAccess`). -/
+theorem reorder_eq_materialise_access [Inhabited ν] (v : TView ν α) (hv : v.lazy.Valid)
+    (names : List ν) :
+    v.reorder names =
+      if IsOrdering v.shape names then .ok (Tensor.ofVal (materialise (reordered v.lazy names)))
+      else .panic .explicit := by
+  unfold TView.reorder
+  by_cases hp : IsOrdering v.shape names
+  · obtain ⟨a, ha, hl⟩ := v.access_of_ordering names hv.shape.1 hp
+    have hav : a.lazy.Valid := hl ▸ reordered_valid hv names hp
+    simp only [ha, hp, if_true]
+    rw [a.iter_eq]
+    have := hav.fromOrPanic
+    simp only [TView.lazy_shape] at this
+    rw [this, hl]
+  · simp only [v.access_none names hv.shape.1 hp, hp, if_false]
+
+/-- **transpose.**  The same with the dimension names staying in place (`TensorTranspose`). -/
+theorem transpose_eq_materialise_transposeView [Inhabited ν] (v : TView ν α) (hv : v.lazy.Valid)
+    (names : List ν) :
+    v.transpose names =
+      if IsOrdering v.shape names then .ok (Tensor.ofVal (materialise (transposed v.lazy names)))
+      else .panic .explicit := by
+  unfold TView.transpose
+  rw [reorder_eq_materialise_access v hv names]
+  by_cases hp : IsOrdering v.shape names
+  · simp only [hp, if_true]
+    have hlen' : names.length = v.shape.length := by simpa using hp.length_eq
+    have hl : (v.shape.map (·.1)).length = (shapeFor v.shape names).length := by
+      simp [shapeFor_length, hlen']
+    congr 1
+    simp only [Tensor.ofVal, materialise, transposed, reordered, TView.lazy_shape,
+      setNames_eq_withNames, TView.lazy_get]
+    rw [withNames_map_snd _ _ hl]
+    congr 1
+    exact computeStrides_congr _ _ (withNames_map_snd _ _ hl).symm
+  · simp only [hp, if_false]
+
+/-- The same two statements for a tensor built from `shape` and row-major `data`, in terms of
+    the data alone. -/
+theorem tensor_reorder_eq [Inhabited ν] (shape : Shape ν) (data : List α) (t : Tensor ν α)
+    (ht : Tensor.tryFrom shape data = some t) (names : List ν) :
+    t.reorder names =
+      (if IsOrdering shape names then
+        .ok (Tensor.ofVal (materialise (reordered (ofData shape data) names)))
+       else .panic .explicit) ∧
+    t.transpose names =
+      (if IsOrdering shape names then
+        .ok (Tensor.ofVal (materialise (transposed (ofData shape data) names)))
+       else .panic .explicit) := by
+  obtain ⟨hv, he, _⟩ := view_valid shape data t ht
+  have hs : t.view.shape = shape := he.1
+  unfold Tensor.reorder Tensor.transpose
+  rw [reorder_eq_materialise_access _ hv, transpose_eq_materialise_transposeView _ hv, hs,
+    materialise_congr (reordered_congr he names), materialise_congr (transposed_congr he names)]
+  exact ⟨rfl, rfl⟩
+
+/-- Non-vacuity: reorder and transpose of a 2×3 tensor, and the rejection of a non-ordering. -/
+example :
+    ∃ t, Tensor.tryFrom [("a", 2), ("b", 3)] [0, 1, 2, 3, 4, 5] = some t ∧
+      (t.reorder ["b", "a"]) = .ok (Tensor.ofVal ⟨[("b", 3), ("a", 2)], [0, 3, 1, 4, 2, 5]⟩) ∧
+      (t.transpose ["b", "a"]) = .ok (Tensor.ofVal ⟨[("a", 3), ("b", 2)], [0, 3, 1, 4, 2, 5]⟩) ∧
+      (t.reorder ["b", "b"]) = .panic .explicit := by
+  refine ⟨_, rfl, ?_, ?_, ?_⟩ <;> rfl
 
 end EasyMl.C13
